@@ -13,6 +13,6 @@ fi
 if [ "$PATCH" = "-" ]; then (cd "$S" && patch -p1 -s) ; else (cd "$S" && patch -p1 -s < "$PATCH"); fi || { echo "patch failed"; exit 2; }
 rc=0
 for P in "$@"; do
-  VERIF_NO_EVIDENCE=1 /verif/check "$P" --repo "$S" || rc=1
+  VERIF_NO_EVIDENCE=1 "$(dirname "$(readlink -f "$0")")/check" "$P" --repo "$S" || rc=1
 done
 exit $rc
